@@ -615,7 +615,11 @@ class Executor:
                 hv.loc[name] = self.havoc_value(old, name)
             elif name in hv.loc and isinstance(hv.loc[name], V):
                 hv.loc[name] = V(T_DYN)   # was None before the loop, may hold anything after
+        tr_before = {k_: v_ for k_, v_ in entry.heap.maps.items() if k_.startswith('$tr')}
         self.havoc_heap(hv, spec.modifies, fr, entry)
+        if spec.modifies is not None and any(m_.strip() == '$trace' for m_ in spec.modifies):
+            from .calls import assume_trace_prefix
+            assume_trace_prefix(hv, tr_before)
         loop_old = hv.fork()
         # `loop_entry(...)` in invariants refers to the state at loop entry; old() stays function entry
         inv_state = hv
@@ -849,7 +853,7 @@ class Executor:
         old = h.copy()
         epoch = f'h{next(sym._counter)}'
         for key in list(h.maps):
-            if key.startswith('$tr') or key.startswith('$w.'):
+            if key.startswith('$'):
                 continue
             if key.startswith('F:') and self.specs.is_const_field(_fkey_name(key)):
                 continue
@@ -874,6 +878,12 @@ class Executor:
         bad = []
         r = fresh('fr_r', Ref)
         was_alive = pre.heap.alive(r)
+        self_only = '$world_havocked' in post.heap.maps and '$world_havocked' not in pre.heap.maps \
+            and self.task_self is not None
+        if self_only:
+            # an external call (user callback, neighbour) ran in between: it may have changed other objects
+            # through their public API; the frame is checked for the object under verification
+            was_alive = z3.And(was_alive, r == self.task_self.t)
         keys = set(pre.heap.maps) | set(post.heap.maps)
         for key in sorted(keys):
             if key == 'alive':
@@ -909,8 +919,13 @@ class Executor:
                 allowed = [o for k, o, ff in locs if k == 'field' and ff == f]
                 if any(o is None for o in allowed):
                     continue
+                if self_only and self.field_ty(self.task_cls, f) is None:
+                    continue      # not a field of the object under verification
                 cond = z3.And(was_alive, *[r != o for o in allowed], a[r] != b[r])
                 bad.append(cond)
+            elif self_only and (key == 'Llen' or key.startswith('L:') or key.startswith('D:') or
+                                key in ('Ddom', 'Dlen', 'Dkeys')):
+                continue      # owned containers are covered by the rely's protect list
             elif key == 'Llen' or key.startswith('L:'):
                 allowed = [o for k, o, _ in locs if k == 'list']
                 bad.append(z3.And(was_alive, *[r != o for o in allowed], a[r] != b[r]))
